@@ -52,22 +52,39 @@ class Model:
             for c in st.get('body', []):
                 self._block(c, env)
         elif k == 'for':
-            var = None
-            for v in walk(st.get('init')):
-                if v.get('k') == 'var':
-                    var = v
-            cond = st.get('cond') or {}
-            if var is None or 'init' not in var or cond.get('k') != 'bin' or cond.get('op') != '<':
-                self.problems.append((st.get('l'), 'loop is not `for (i = c0; i < c1; ++i)`'))
-                return
-            lo = self.ev.eval(var['init'], env)
-            hi = self.ev.eval(cond['rhs'], env)
-            if lo is None or hi is None or hi - lo > 64:
+            # a counting loop with small constant bounds, in either direction, the variable declared in the loop or in front
+            from .loops import loop_range
+            rng = loop_range(self.ctor, st)
+            if rng is None:
+                var = None
+                for v in walk(st.get('init')):
+                    if v.get('k') == 'var':
+                        var = v
+                cond = unwrap_casts(st.get('cond') or {})
+                inc = unwrap_casts(st.get('inc') or {})
+                up = isinstance(inc, dict) and inc.get('k') == 'un' and inc.get('op') in ('++', 'post++')
+                if var is None or 'init' not in var or cond.get('k') != 'bin' or cond.get('op') not in ('<', '<=', '!=') or not up \
+                        or unwrap_casts(cond.get('lhs')).get('name') != var['name']:
+                    self.problems.append((st.get('l'), 'loop is not a counting loop over a small constant range'))
+                    return
+                lo = self.ev.eval(var['init'], env)
+                hi = self.ev.eval(cond['rhs'], env)
+                if hi is None:
+                    # std::array<T, N>::size()
+                    r_ = unwrap_casts(cond['rhs'])
+                    import re as _re
+                    m_ = _re.match(r'std::array<.*, (\d+)>$', str(r_.get('cls', ''))) if isinstance(r_, dict) and r_.get('k') == 'call' and r_.get('name') == 'size' else None
+                    hi = int(m_.group(1)) if m_ else None
+                if hi is not None and cond.get('op') == '<=':
+                    hi += 1
+                rng = (var['name'], lo, hi, 1)
+            name, lo, hi, step = rng
+            if lo is None or hi is None or abs(hi - lo) > 64:
                 self.problems.append((st.get('l'), 'loop bounds are not small constants'))
                 return
-            for i in range(lo, hi):
+            for i in range(lo, hi, step):
                 e2 = dict(env)
-                e2[var['name']] = i
+                e2[name] = i
                 self._block(st.get('body'), e2)
         elif k == 'opcall' and st.get('op') == '=':
             self._assign(st, env)
